@@ -58,17 +58,32 @@ pub fn write_if_changed(p: &Path, content: &str) -> bool {
     true
 }
 
+/// runs one translator part; every TIE-BROKEN / ITEM message it produces is tagged with the Gen file it belongs to, so
+/// that ./check can tell which properties (those whose Lean modules import that Gen file) are affected.
+fn run_part(ctx: &mut Ctx, stem: &str, part: fn(&mut Ctx) -> Option<String>) {
+    let (b0, i0) = (ctx.broken.len(), ctx.items.len());
+    let res = part(ctx);
+    for m in ctx.broken[b0..].iter_mut() { *m = format!("{stem}/{m}"); }
+    for m in ctx.items[i0..].iter_mut() { *m = format!("{stem}/{m}"); }
+    if let Some(t) = res {
+        let ch = write_if_changed(&ctx.out.join(format!("{stem}.lean")), &t);
+        println!("GEN {stem}.lean {}", if ch { "rewritten" } else { "unchanged" });
+    } else if ctx.broken.len() == b0 {
+        ctx.broken.push(format!("{stem}/(whole file): the translator part produced nothing"));
+    }
+}
+
 fn main() {
     let args: Vec<String> = std::env::args().collect();
     let repo = PathBuf::from(args.get(1).map(String::as_str).unwrap_or("/repo"));
     let out = PathBuf::from(args.get(2).map(String::as_str).unwrap_or("/verif/lean/CnbVerif/Gen"));
     let mut ctx = Ctx { repo, out, broken: vec![], items: vec![] };
-    if let Some(t) = tables::tables(&mut ctx) { let ch = write_if_changed(&ctx.out.join("Tables.lean"), &t); println!("GEN Tables.lean {}", if ch { "rewritten" } else { "unchanged" }); }
-    if let Some(t) = sites::sites(&mut ctx) { let ch = write_if_changed(&ctx.out.join("Sites.lean"), &t); println!("GEN Sites.lean {}", if ch { "rewritten" } else { "unchanged" }); }
-    if let Some(t) = runtime::runtime(&mut ctx) { let ch = write_if_changed(&ctx.out.join("Runtime.lean"), &t); println!("GEN Runtime.lean {}", if ch { "rewritten" } else { "unchanged" }); }
-    if let Some(t) = schemas::schemas(&mut ctx) { let ch = write_if_changed(&ctx.out.join("Schemas.lean"), &t); println!("GEN Schemas.lean {}", if ch { "rewritten" } else { "unchanged" }); }
-    if let Some(t) = regexes::regexes(&mut ctx) { let ch = write_if_changed(&ctx.out.join("Regexes.lean"), &t); println!("GEN Regexes.lean {}", if ch { "rewritten" } else { "unchanged" }); }
-    if let Some(t) = hashsites::hashsites(&mut ctx) { let ch = write_if_changed(&ctx.out.join("HashSites.lean"), &t); println!("GEN HashSites.lean {}", if ch { "rewritten" } else { "unchanged" }); }
+    run_part(&mut ctx, "Tables", tables::tables);
+    run_part(&mut ctx, "Sites", sites::sites);
+    run_part(&mut ctx, "Runtime", runtime::runtime);
+    run_part(&mut ctx, "Schemas", schemas::schemas);
+    run_part(&mut ctx, "Regexes", regexes::regexes);
+    run_part(&mut ctx, "HashSites", hashsites::hashsites);
     for i in &ctx.items { println!("ITEM {i}"); }
     for b in &ctx.broken { println!("TIE-BROKEN {b}"); }
     if !ctx.broken.is_empty() { std::process::exit(3); }
